@@ -10,21 +10,21 @@ pub fn gen08(tier: &str, rng: &mut Rng) -> Vec<Spec> {
     let t = tier == "thorough"; let mut v = vec![];
     let outs = [(10i64, 20i64), (-1, 1), (7, 7)];
     // threshold: samples below / equal / above
-    for l in 0..=(if t { 6 } else { 5 }) { for (i, xs) in super::all_seqs(&[4i64, 5, 6], l).into_iter().enumerate() {
+    for l in 0..=(if t { 6 } else { 5 }) { for (i, xs) in crate::util::all_seqs(&[4i64, 5, 6], l).into_iter().enumerate() {
         let (off, on) = outs[i % 2];
         v.push(Spec::new("threshold").with("a", 5).with("off", off).with("on", on).with("xs", join(&xs))); } }
     // schmitt: the three relations of low to high; sample positions below / equal / between / above
     for (lo, hi, alpha) in [(2i64, 6i64, vec![1i64, 2, 4, 6, 7]), (4, 4, vec![3, 4, 5]), (6, 2, vec![1, 2, 4, 6, 7])] {
-        for xs in super::all_seqs(&alpha, if t { 7 } else { if alpha.len() == 3 { 7 } else { 5 } }) {
+        for xs in crate::util::all_seqs(&alpha, if t { 7 } else { if alpha.len() == 3 { 7 } else { 5 } }) {
             let (off, on) = outs[(xs.len() + xs[0] as usize) % 2];
             v.push(Spec::new("schmitt").with("a", lo).with("b", hi).with("off", off).with("on", on).with("xs", join(&xs)));
         }
     }
     // debounce: thresholds 0..8, fresh and injected counters at the end of the range
-    for thr in 0..=8u64 { for xs in super::all_seqs(&[7i64, 3], if t { 9 } else { 7 }) {
+    for thr in 0..=8u64 { for xs in crate::util::all_seqs(&[7i64, 3], if t { 9 } else { 7 }) {
         v.push(Spec::new("debounce").with("a", 7).with("thr", thr).with("c0", 0).with("off", 10).with("on", 20).with("xs", join(&xs))); } }
     for c0 in [u64::MAX, u64::MAX - 1, u64::MAX - 2, u64::MAX - 3] { for thr in [0u64, 1, 3, u64::MAX - 2, u64::MAX - 1, u64::MAX] {
-        for xs in super::all_seqs(&[7i64, 3], if t { 7 } else { 5 }) {
+        for xs in crate::util::all_seqs(&[7i64, 3], if t { 7 } else { 5 }) {
             v.push(Spec::new("debounce").with("a", 7).with("thr", thr).with("c0", c0).with("off", 10).with("on", 20).with("xs", join(&xs))); } } }
     for _ in 0..(if t { 2000 } else { 300 }) {
         let len = rng.range(1, 60) as usize; let xs: Vec<i64> = (0..len).map(|_| rng.range(0, 9)).collect();
@@ -66,8 +66,8 @@ pub fn gen09(tier: &str, rng: &mut Rng) -> Vec<Spec> {
     let s3: Vec<String> = ["0", "1", "2"].iter().map(|s| s.to_string()).collect();
     let s4: Vec<String> = ["0", "1", "nan", "2"].iter().map(|s| s.to_string()).collect();
     for kind in ["slopes", "peaks", "peaks_slopes"] {
-        for l in 0..=(if t { 9 } else { 8 }) { for xs in super::all_seqs(&s3, l) { v.push(Spec::new(kind).with("xs", xs.join(","))); } }
-        if kind != "peaks_slopes" { for xs in super::all_seqs(&s4, if t { 7 } else { 6 }) { v.push(Spec::new(kind).with("xs", xs.join(","))); } }
+        for l in 0..=(if t { 9 } else { 8 }) { for xs in crate::util::all_seqs(&s3, l) { v.push(Spec::new(kind).with("xs", xs.join(","))); } }
+        if kind != "peaks_slopes" { for xs in crate::util::all_seqs(&s4, if t { 7 } else { 6 }) { v.push(Spec::new(kind).with("xs", xs.join(","))); } }
         for _ in 0..(if t { 1500 } else { 200 }) { let len = rng.range(3, 80) as usize; let hi = if kind == "peaks_slopes" { 2 } else { rng.range(2, 9) };
             let xs: Vec<String> = (0..len).map(|_| rng.range(0, hi).to_string()).collect(); v.push(Spec::new(kind).with("xs", xs.join(","))); }
     }
